@@ -30,7 +30,8 @@ ASSUMPTIONS = [
     "requests issued while a reconfigure block is being entered/left from another task are outside the property",
 ]
 
-CREDS = [("v2c", "pub0"), ("v1", "com1"), ("v2c", "com2"), ("v3", "usr3"), ("v3", "usr4"), ("v1", "com5"), ("v3", "usr6")]
+# the last two share their community string with a credential of the other community-based family (V1("pub0") == V2C("pub0") in puresnmp)
+CREDS = [("v2c", "pub0"), ("v1", "com1"), ("v2c", "com2"), ("v3", "usr3"), ("v3", "usr4"), ("v1", "com5"), ("v3", "usr6"), ("v1", "pub0"), ("v2c", "com1")]
 VERSION = {"v1": 0, "v2c": 1, "v3": 3}
 UNKNOWN = ["timeouts", "retry", "community", "port", "mpm", "sender"]
 OID = [1, 3, 6, 1, 2, 1, 1, 1, 0]
@@ -150,7 +151,7 @@ class Run:
             else:
                 name = bytes(e["community"]).decode()
                 ctx = None
-            cred = next((i for i, (_f, nm) in enumerate(CREDS) if nm == name), None)
+            cred = next((i for i, (f, nm) in enumerate(CREDS) if nm == name and VERSION[f] == e["version"]), None)
             self.obs.append([1 if probe else 0, timeout, retries, e["version"], None if probe else cred, int(ctx[3:]) if ctx else None, id(mpm)])
             return resp
 
